@@ -1,8 +1,10 @@
 (* C14 — property theorems.  This file contains statements, `exact` proofs, non-vacuity examples and Print Assumptions only.
    All grid formulas (steps_value, steps2d_value, get_2d_indices, get_1d_index, it1d_next, …, the space conversions, the
    loop ranges / swap indices of transpose_vec) are the definitions GENERATED from /repo/src by tools/gen/grid.py. *)
+From Coq Require Import String QArith Qreals.
 From Coq Require Import List Arith Bool Lia Reals Lra Permutation.
-From SpdVerif Require Import Base.GridOps Gen.Grid Model.Grid Proofs.C14_iter Proofs.C14_steps Proofs.C14_spaces Proofs.C14_transpose.
+From SpdVerif Require Import Base.GridOps Gen.Grid Gen.Ranges Model.Grid Proofs.C14_iter Proofs.C14_steps Proofs.C14_spaces Proofs.C14_transpose Proofs.C14_qr Proofs.C14_ranges.
+Local Close Scope Q_scope.
 Import ListNotations.
 
 (* 1-D: n values, first = start, last = end (n >= 2), constant spacing (end-start)/(n-1).  Over the reals. *)
@@ -117,6 +119,21 @@ Theorem C14_transpose_partial : forall A (rows cols : nat) (v : list A),
   exists w, transpose_vec v cols = Ok w /\ is_transpose rows cols v w.
 Proof. exact (@transpose_correct). Qed.
 
+(* every JointSpectrum::*_range is `range.into_signal_idler_par_iterator().map(|(signal, idler)| point(..)).collect()` with the
+   point function of the same name and the documented argument order (idler variants: swapped spectrum, swapped arguments);
+   with C15_collect this is "one value per grid point, in grid order, identical to evaluating point by point" *)
+Theorem C14_range_table :
+  forallb entry_ok range_calls = true /\ has "jsa_range" = true /\ has "jsi_range" = true /\ has "jsi_singles_range" = true.
+Proof. exact range_table_ok. Qed.
+
+(* the executable Q instance run by the correspondence cases is the real instance on rational arguments *)
+Theorem C14_model_Q_is_R :
+  (forall s e n i, Q2R (steps_value Qops s e n i) = steps_value Rops (Q2R s) (Q2R e) n i) /\
+  (forall x0 x1 nx y0 y1 ny k,
+     (Q2R (fst (steps2d_value Qops x0 x1 nx y0 y1 ny k)), Q2R (snd (steps2d_value Qops x0 x1 nx y0 y1 ny k))) =
+     steps2d_value Rops (Q2R x0) (Q2R x1) nx (Q2R y0) (Q2R y1) ny k).
+Proof. exact (conj steps_value_Q2R steps2d_value_Q2R). Qed.
+
 (* non-vacuity *)
 Example C14_nonvacuous_space : ascending (fst (mk_space 1 2 3 1 2 3)) /\ nonzero_axes (mk_space 1 2 3 1 2 3).
 Proof. unfold ascending, nonzero_axes, mk_space; cbn. repeat split; lra. Qed.
@@ -139,3 +156,5 @@ Print Assumptions C14_sumdiff.
 Print Assumptions C14_conversions_compose.
 Print Assumptions C14_flat_list.
 Print Assumptions C14_transpose_partial.
+Print Assumptions C14_range_table.
+Print Assumptions C14_model_Q_is_R.
